@@ -112,6 +112,18 @@ def gen(rng, tier):
             ops.append({"sub": ents, "data": data})
         cases.append({"k": "hist", "lower": lower, "top": rng.choice(["t", "T"]) if lower else "t",
                       "univ": UNIV + (["B", "T"] if lower else []), "ops": ops})
+    # with a normalizer: a valid hierarchy, then a batch that names an existing node (or the same new
+    # node twice) under another spelling, with parents that would be acceptable for a new node
+    base = {"sub": [["a", ["t"]], ["b", ["t"]], ["c", ["a"]]], "data": []}
+    for again in ("A", "C", "B", "c", "T"):
+        for ps in (["t"], ["b"], ["T"], ["a", "b"], "b"):
+            for top in ("t", "T"):
+                cases.append({"k": "hist", "lower": True, "top": top, "univ": UNIV + ["B", "T", "C"],
+                              "ops": [base, {"sub": [[again, ps]], "data": []},
+                                      {"sub": [["d", ["c"]]], "data": [["d", 1]]}]})
+    for pair in (["e", "E"], ["E", "e"]):
+        cases.append({"k": "hist", "lower": True, "top": "t", "univ": UNIV + ["B", "T", "E"],
+                      "ops": [base, {"sub": [[pair[0], ["a"]], [pair[1], ["b"]]], "data": []}]})
     return cases
 
 
